@@ -24,7 +24,7 @@ def validate(ctx: Ctx, traces: list[list[dict]], module: str = "DriverTrace", na
         with open(path, "w") as fh:
             json.dump([traces[i] for i in idx], fh, default=_js)
         res = run_tlc(ctx, f"{name}-{k}", module, f"{module}.cfg", env={"TRACE_FILE": str(path)},
-                      workers=1, timeout=1500, record=False)
+                      workers=1, timeout=5400, record=False)
         os.unlink(path)
         return k, res
 
